@@ -485,21 +485,23 @@ pub fn run(args: &Args) -> Report {
     let miri = cfg!(miri);
     let mut rng = Rng::new(args.seed).sub(7 + args.shard as u64 * 1000);
     CTX.log_on.store(false, SeqCst);
-    let rounds = if miri { 1 } else { args.n(8, 16) };
+    let rounds = if miri { 1 } else { args.n(8, 12) };
     for round in 0..rounds {
         rep.eval();
         let readers = if miri { 2 + round % 2 } else { rng.range(1, 12) };
-        let reloads = if miri { 3 } else { args.n(300, 1200) as u64 };
+        let reloads = if miri { 3 } else { args.n(300, 800) as u64 };
         enhanced(&mut rep, &mut rng, round, readers, reloads);
     }
     for round in 0..rounds {
         rep.eval();
         let callers = if miri { 1 } else { rng.range(1, 4) };
-        let calls = if miri { 3 } else { args.n(200, 1000) as u64 / callers as u64 };
+        let calls = if miri { 3 } else { args.n(200, 800) as u64 / callers as u64 };
         local(&mut rep, &mut rng, round, calls, callers);
     }
-    rep.floor("reads_that_saw_a_new_generation", rep.get("reads_that_saw_a_new_generation"), if miri { 1 } else { 500 });
-    rep.floor("sampler_observed_changes", rep.get("sampler_observed_changes"), if miri { 1 } else { 300 });
-    rep.floor("guard_holds", rep.get("guard_holds"), if miri { 1 } else { 1000 });
+    // the floors follow the workload (sanitizer builds run a fraction of it)
+    let f = |n: u64| ((n as f64 * args.scale.min(1.0)) as u64).max(1);
+    rep.floor("reads_that_saw_a_new_generation", rep.get("reads_that_saw_a_new_generation"), if miri { 1 } else { f(500) });
+    rep.floor("sampler_observed_changes", rep.get("sampler_observed_changes"), if miri { 1 } else { f(300) });
+    rep.floor("guard_holds", rep.get("guard_holds"), if miri { 1 } else { f(1000) });
     rep
 }
